@@ -306,10 +306,118 @@ def _module_consts(mod: Module, fn: ast.AST) -> T.Dict[str, ast.AST]:
     return out
 
 
+def _unroll_table_loops(mod: Module, stmts: T.List[ast.stmt]) -> T.Optional[T.List[ast.stmt]]:
+    """Constant-table dispatch normal form (policy form c): `for a, b in TABLE: if test(a): S(b); break` [+ else: E] over a constant tuple / list of
+    records (a display, or a module-level constant) is the chain `if test(a1): S(b1) elif test(a2): S(b2) ... else: E`.  None when nothing matched."""
+    import copy
+    hit = [False]
+
+    def table_of(e: ast.AST) -> T.Optional[T.List[ast.AST]]:
+        if isinstance(e, ast.Name) and mod.has_assign(e.id):
+            e = mod.assign_value(e.id)
+        if isinstance(e, (ast.Tuple, ast.List)) and 0 < len(e.elts) <= 8 and not any(isinstance(x, ast.Starred) for x in e.elts):
+            return list(e.elts)
+        return None
+
+    class U(ast.NodeTransformer):
+        def visit_For(self, n: ast.For) -> ast.AST:
+            self.generic_visit(n)
+            rows = table_of(n.iter)
+            if rows is None or len(n.body) != 1 or not isinstance(n.body[0], ast.If) or n.body[0].orelse or not n.body[0].body \
+                    or not isinstance(n.body[0].body[-1], ast.Break) or any(isinstance(x, (ast.Break, ast.Continue)) for st in n.body[0].body[:-1] for x in ast.walk(st)):
+                return n
+            names = [n.target] if isinstance(n.target, ast.Name) else (list(n.target.elts) if isinstance(n.target, (ast.Tuple, ast.List)) else [])
+            if not names or not all(isinstance(x, ast.Name) for x in names):
+                return n
+            chain: T.List[ast.stmt] = list(n.orelse)
+            for rec in reversed(rows):
+                vals = [rec] if isinstance(n.target, ast.Name) else (list(rec.elts) if isinstance(rec, (ast.Tuple, ast.List)) and len(rec.elts) == len(names) else None)
+                if vals is None:
+                    return n
+                env = {t_.id: v_ for t_, v_ in zip(names, vals)}  # type: ignore[attr-defined]
+                sub = shape._Sub(env)
+                test = sub.visit(copy.deepcopy(n.body[0].test))
+                body = [sub.visit(copy.deepcopy(st)) for st in n.body[0].body[:-1]] or [ast.Pass()]
+                chain = [ast.copy_location(ast.If(test=test, body=body, orelse=chain), n)]
+            hit[0] = True
+            return ast.fix_missing_locations(chain[0])
+    out = [U().visit(copy.deepcopy(st)) for st in stmts]
+    return out if hit[0] else None
+
+
 def _table(mod: Module, fn: ast.AST, body: T.Optional[T.List[ast.stmt]] = None, *, base: T.Optional[T.Dict[str, ast.AST]] = None, **kw: T.Any) -> Table:
     b = dict(_module_consts(mod, fn))
     b.update(base or {})
-    return shape.table(fn, body, base=b, **kw)
+    stmts = body if body is not None else fn.body  # type: ignore[attr-defined]
+    unrolled = _unroll_table_loops(mod, stmts)
+    return shape.table(fn, unrolled if unrolled is not None else body, base=b, **kw)
+
+
+def _expand_pure_helpers(mod: Module, tab: Table, depth: int = 0) -> Table:
+    """Pure-helper normal form: a row whose statement-call has, as an argument, a call of a module-level function that only computes
+    (every path returns or raises, no statement-calls of its own) is replaced by one row per path of that function - conditions joined,
+    the call replaced by the returned expression; a raising path of the helper ends the row with that exception."""
+    import copy
+    rows: T.List[T.Any] = []
+    changed = False
+    for r in T.cast(T.List[shape.XRow], tab.rows):
+        site = None
+        for ci, c in enumerate(r.calls):
+            for a in list(c.args) + [k.value for k in c.keywords]:
+                if isinstance(a, ast.Call) and isinstance(a.func, ast.Name) and mod.has_func(a.func.id) and '.' not in a.func.id:
+                    site = (ci, a)
+                    break
+            if site:
+                break
+        if site is None or depth > 3:
+            rows.append(r)
+            continue
+        ci, call = site
+        g = mod.func(call.func.id)
+        bound = _bind_call(call, g)
+        names = [x.arg for x in g.args.posonlyargs + g.args.args]
+        if bound is None or set(bound) != set(names) or g.args.vararg or g.args.kwarg or any(isinstance(n, (ast.Yield, ast.YieldFrom, ast.Global, ast.Nonlocal)) for n in ast.walk(g)):
+            rows.append(r)
+            continue
+        htab = _table(mod, g, handlers=False, name=g.name, base=dict(bound))
+        hrows = T.cast(T.List[shape.XRow], htab.rows)
+        if not hrows or any(h.calls or h.outcome[0] not in ('return', 'raise') or (h.outcome[0] == 'return' and h.value is None) for h in hrows):
+            rows.append(r)
+            continue
+        changed = True
+        for h in hrows:
+            conds = dict(r.conds)
+            clash = False
+            for a_, v_ in h.conds.items():
+                if conds.get(a_, v_) != v_:
+                    clash = True
+                    break
+                conds[a_] = v_
+            if clash:
+                continue
+            if h.outcome[0] == 'raise':
+                nr = shape.XRow(conds, h.outcome, tuple(norm(c) for c in r.calls[:ci]), r.path)
+                nr.calls, nr.value = list(r.calls[:ci]), None
+            else:
+                class S(ast.NodeTransformer):
+                    def visit_Call(self, n: ast.Call) -> ast.AST:
+                        if n is tgt:
+                            return copy.deepcopy(h.value)
+                        return self.generic_visit(n)
+                newc = copy.deepcopy(r.calls[ci])
+                # find the same argument position in the copy
+                tgt = None
+                for a0, a1 in zip(list(r.calls[ci].args) + [k.value for k in r.calls[ci].keywords], list(newc.args) + [k.value for k in newc.keywords]):
+                    if a0 is call:
+                        tgt = a1
+                newc = T.cast(ast.Call, S().visit(newc))
+                calls = list(r.calls[:ci]) + [newc] + list(r.calls[ci + 1:])
+                nr = shape.XRow(conds, r.outcome, tuple(norm(c) for c in calls), r.path)
+                nr.calls, nr.value = calls, r.value
+            nr.handlers, nr.in_try, nr.env = r.handlers, r.in_try, r.env
+            rows.append(nr)
+    out = Table(rows, tab.name)
+    return _expand_pure_helpers(mod, out, depth + 1) if changed else out
 
 
 def _aliases_before(fn: ast.FunctionDef, upto: ast.stmt) -> T.Dict[str, ast.AST]:
@@ -594,6 +702,7 @@ def _check_table(ctx: RuleCtx, mod: Module, spec: Spec, tab: Table, what: str, o
 def _confs(mod: Module, qn: str) -> T.Set[str]:
     c = taint.Analysis(mod).conf_params(qn)
     cap = getattr(mod, '_c14_captured', {}).get(qn.split('.')[0], []) if '.' in qn else []
+    c = c | getattr(mod, '_c14_extra_confs', {}).get(qn, set())
     c = c | {a.arg for a in cap if a.annotation is not None and 'ConfigurationData' in norm(a.annotation)}
     if not c:
         raise Undecided(f'{qn}: no ConfigurationData parameter in scope')
@@ -608,20 +717,45 @@ def _ret(*texts: str, **kw: T.Any) -> T.Dict[str, T.Any]:
 
 
 # -- the callback of the meson scan -------------------------------------------------------------------
-def _callback_table(mod: Module) -> T.Tuple[str, ast.FunctionDef, Table, str]:
+def _callback_fn(mod: Module) -> T.Tuple[str, ast.FunctionDef, T.Dict[str, ast.AST]]:
+    """The replacement callback of the meson scan: a closure of do_replacement_meson, or `functools.partial(F, a, b, ..)` of a module-level
+    function F - then F with its leading parameters bound to a, b, .. (partial application is a closure over those values)."""
     _, cbname, _ = _scan_call(mod, 'do_replacement_meson')
     qn = f'do_replacement_meson.{cbname}'
-    if not mod.has_func(qn):
-        raise Undecided(f'do_replacement_meson: replacement `{cbname}` is not a nested function')
-    fn = mod.func(qn)
-    if len(fn.args.args) != 1:
-        raise Undecided(f'{qn}: expected one parameter (the match)')
+    if mod.has_func(qn):
+        return qn, mod.func(qn), {}
+    outer = mod.func('do_replacement_meson')
+    d = _single_def(outer, ast.Name(id=cbname, ctx=ast.Load()))
+    if isinstance(d, ast.Call) and norm(d.func) in ('partial', 'functools.partial') and d.args and isinstance(d.args[0], ast.Name) and mod.has_func(d.args[0].id):
+        f = mod.func(d.args[0].id)
+        names = [a.arg for a in f.args.posonlyargs + f.args.args]
+        bound: T.Dict[str, ast.AST] = {}
+        for nm, a in zip(names, d.args[1:]):
+            bound[nm] = a
+        for k in d.keywords:
+            if k.arg is None or k.arg not in names:
+                raise Undecided(f'do_replacement_meson: cannot bind `{short(d)}`')
+            bound[k.arg] = k.value
+        extra = getattr(mod, '_c14_extra_confs', {})
+        extra[d.args[0].id] = _confs(mod, 'do_replacement_meson')
+        mod._c14_extra_confs = extra  # type: ignore[attr-defined]
+        return d.args[0].id, f, bound
+    raise Undecided(f'do_replacement_meson: replacement `{cbname}` is neither a nested function nor a partial application of a module function')
+
+
+def _callback_table(mod: Module) -> T.Tuple[str, ast.FunctionDef, Table, str]:
+    qn, fn, bound = _callback_fn(mod)
+    free = [a.arg for a in fn.args.posonlyargs + fn.args.args if a.arg not in bound]
+    if len(free) != 1:
+        raise Undecided(f'{qn}: expected one free parameter (the match)')
     outer = mod.func('do_replacement_meson')
     base = shape.PathEnv()
     for st in outer.body:
         if isinstance(st, (ast.Assign, ast.AnnAssign)) and not isinstance(getattr(st, 'value', None), ast.Call):
             base.stmt(st)       # aliases such as `cfg = confdata`
-    return qn, fn, _table(mod, fn, handlers=True, name=qn, base=base.env), fn.args.args[0].arg
+    env = dict(base.env)
+    env.update({k: base.close(v) for k, v in bound.items()})
+    return qn, fn, _table(mod, fn, handlers=True, name=qn, base=env), free[0]
 
 
 def _group_ref(e: ast.AST, m: str) -> T.Optional[T.Any]:
@@ -892,16 +1026,14 @@ def r2(ctx: RuleCtx) -> None:
         raise Undecided(f'do_replacement_meson: flags in `{short(call)}`')
     ctx.require(cnt is None or cnt.value == 0, 'do_replacement_meson: the scan replaces every match (no count limit)', mod, 'do_replacement_meson', call,
                 f'`{short(call)}` limits the number of replacements to {norm(cnt)}: later placeholders of the line are left in the output', call)
-    if not mod.has_func(f'do_replacement_meson.{cbname}'):
-        raise Undecided(f'do_replacement_meson: replacement `{cbname}` is not a nested function')
+    cb_qn, cb, cb_bound = _callback_fn(mod)
     # decision table of the callback
     _r2_callback(ctx, mod, kinds, gd)
     # the set the callback fills is the one returned
     rets = [s for s in fn.body if isinstance(s, ast.Return)]
     ok = len(rets) == 1 and isinstance(rets[0].value, ast.Tuple) and len(rets[0].value.elts) == 2 and _single_def(fn, rets[0].value.elts[0]) is call
     miss = norm(rets[0].value.elts[1]) if ok else '?'
-    cb = mod.func(f'do_replacement_meson.{cbname}')
-    recv = {norm(c.func.value) for c in ast.walk(cb) if isinstance(c, ast.Call) and _added_elems(c)}  # type: ignore[attr-defined]
+    recv = {norm(cb_bound.get(norm(c.func.value), c.func.value)) for c in ast.walk(cb) if isinstance(c, ast.Call) and _added_elems(c)}  # type: ignore[attr-defined]
     if not ok or len(recv) != 1:
         raise Undecided('do_replacement_meson: expected a single `return <scan result>, <set of missing names>` and one set the callback adds to')
     second = _single_def(fn, rets[0].value.elts[1])       # type: ignore[union-attr]
@@ -1256,6 +1388,16 @@ def _header_fn(mod: Module) -> ast.FunctionDef:
     """`_dump_c_header`, or - when it only drains a generator of the module (`for chunk in chunks(..): ofile.write(chunk)`) - that generator
     with every `yield E` read as `ofile.write(E)` (same statements, same order; the text reaches the file either way)."""
     import copy
+    cached = getattr(mod, '_c14_header_fn', None)
+    if cached is not None:
+        return cached
+    fn = _header_fn_raw(mod)
+    mod._c14_header_fn = fn  # type: ignore[attr-defined]
+    return fn
+
+
+def _header_fn_raw(mod: Module) -> ast.FunctionDef:
+    import copy
     fn = mod.func('_dump_c_header')
     body = [b for b in fn.body if not (isinstance(b, ast.Expr) and isinstance(b.value, ast.Constant))]
     outp = [a.arg for a in fn.args.args if a.annotation is not None and 'TextIO' in norm(a.annotation)]
@@ -1282,7 +1424,35 @@ def _header_fn(mod: Module) -> ast.FunctionDef:
         if any(isinstance(n, ast.Yield) for n in ast.walk(g2)):
             raise Undecided(f'{gen.name}: a yield that is not a statement of its own')
         g2.args.args = [copy.deepcopy(a) for a in fn.args.args if a.arg == outp[0]] + g2.args.args
-        return g2
+        return _items_loop_as_key_loop(g2)
+    return _items_loop_as_key_loop(copy.deepcopy(fn))
+
+
+def _items_loop_as_key_loop(fn: ast.FunctionDef) -> ast.FunctionDef:
+    """`for k, rec in sorted(D.values.items()[, key=<first element>])` is `for k in sorted(D.keys()): rec = D.get(k)` (keys are unique, so ordering
+    the items by their first element is ordering the keys; D.get(k) is D.values[k], checked in R3)."""
+    conf = [a.arg for a in fn.args.args if a.annotation is not None and 'ConfigurationData' in norm(a.annotation)]
+    for i, st in enumerate(fn.body):
+        if not (isinstance(st, ast.For) and isinstance(st.target, ast.Tuple) and len(st.target.elts) == 2 and isinstance(st.target.elts[0], ast.Name)):
+            continue
+        it = st.iter
+        if not (isinstance(it, ast.Call) and norm(it.func) == 'sorted' and len(it.args) == 1 and len(conf) == 1 and norm(it.args[0]) == f'{conf[0]}.values.items()'):
+            continue
+        keyf = kwarg(it, 'key')
+        first = keyf is None or norm(keyf) in ('operator.itemgetter(0)', 'itemgetter(0)') or \
+            (isinstance(keyf, ast.Lambda) and len(keyf.args.args) == 1 and norm(keyf.body) == f'{keyf.args.args[0].arg}[0]')
+        if not first or any(k_.arg not in ('key', 'reverse') for k_ in it.keywords):
+            continue
+        k = st.target.elts[0]
+        new_iter = ast.Call(func=ast.Name(id='sorted', ctx=ast.Load()), args=[ast.Call(func=ast.Attribute(value=ast.Name(id=conf[0], ctx=ast.Load()), attr='keys', ctx=ast.Load()),
+                                                                                     args=[], keywords=[])],
+                            keywords=[k_ for k_ in it.keywords if k_.arg == 'reverse'])
+        bind = ast.Assign(targets=[st.target.elts[1]], value=ast.Call(func=ast.Attribute(value=ast.Name(id=conf[0], ctx=ast.Load()), attr='get', ctx=ast.Load()),
+                                                                      args=[ast.Name(id=k.id, ctx=ast.Load())], keywords=[]))
+        new = ast.For(target=ast.Name(id=k.id, ctx=ast.Store()), iter=new_iter, body=[bind] + st.body, orelse=st.orelse)
+        for n_ in (new, bind, new_iter):
+            ast.copy_location(n_, st)
+        fn.body[i] = ast.fix_missing_locations(new)
     return fn
 
 
@@ -1346,7 +1516,7 @@ def _header_forms(ctx: RuleCtx, mod: Module) -> int:
                 raise Undecided(f'{qn}: boolean rows do not test the value')
             return {'kind': 'fall', 'writes': head + ['{P}define {NAME}\n\n' if sem['truthy'] else '{P}undef {NAME}\n\n']}
         return {'kind': 'fall', 'writes': head + ['{P}define {NAME} {VALUE}\n\n']}
-    tab = _table(mod, fn, body=loop.body, handlers=False, name=qn + ':entry', base=_aliases_before(fn, loop))
+    tab = _expand_pure_helpers(mod, _table(mod, fn, body=loop.body, handlers=False, name=qn + ':entry', base=_aliases_before(fn, loop)))
     sp = Spec(qn, confs, ref, role=role)
     # inside the loop body the key is the loop variable
     n += _check_table(ctx, mod, sp, tab, 'header entry per value type')
@@ -1836,15 +2006,15 @@ def r5(ctx: RuleCtx) -> None:
     k = loop.target.id
     n = 0
     kinds_seen: T.Set[T.FrozenSet[str]] = set()
-    etab = _table(mod, fn, body=loop.body, handlers=False, name='_dump_c_header:entry', base=_aliases_before(fn, loop))
+    etab = _expand_pure_helpers(mod, _table(mod, fn, body=loop.body, handlers=False, name='_dump_c_header:entry', base=_aliases_before(fn, loop)))
     for r in T.cast(T.List[shape.XRow], etab.rows):
         p = r.path
-        where = p.describe()[:140]
-        if p.outcome == 'raise':
+        where = ' & '.join(('' if v_ else 'not ') + repr(a_) for a_, v_ in r.conds.items())[:140] or 'always'
+        if r.outcome[0] == 'raise':
             continue
         last = p.events[-1].node if p.events else loop
-        if p.outcome != 'fall':
-            ctx.violation(mod, '_dump_c_header', last or loop, f'the loop body ends with `{p.outcome}` on the path [{where}]: a key is skipped', last)
+        if r.outcome[0] != 'fall':
+            ctx.violation(mod, '_dump_c_header', last or loop, f'the loop body ends with `{r.outcome[0]}` on the path [{where}]: a key is skipped', last)
             continue
         # a write whose text has the key itself as an operand (reaching definitions substituted) is the emission for that key
         ws = [c for c in r.calls if isinstance(c.func, ast.Attribute) and norm(c.func.value) == of and c.func.attr == 'write' and len(c.args) == 1
